@@ -47,3 +47,14 @@ func VerifH_SmokeLib2() {
 		strings.HasPrefix(k+"x", k), strings.Index("abc"+k, k), strings.ReplaceAll("a"+k+k, k, "-"), strings.TrimPrefix(k+"rest", k), strings.Contains("a"+k, "z"))
 	vrt.Observe("bytes", string(bytes.TrimSpace([]byte(" "+k+" "))), len(bytes.Split([]byte("a,"+k), []byte(","))), bytes.Equal([]byte(k), []byte("z")), string(bytes.ToUpper([]byte(k))))
 }
+
+// VerifH_SmokeFmt: a format string and operands with symbolic bytes.
+func VerifH_SmokeFmt() {
+	c := vrt.Byte("c")
+	d := vrt.Byte("d")
+	vrt.Assume(vrt.Or(c == '%', vrt.Or(c == 'a', c == 'd')))
+	vrt.Assume(vrt.Or(d == 's', vrt.Or(d == 'x', vrt.Or(d == '!', vrt.Or(d == '%', d == 'd')))))
+	op := "o" + string([]byte{d}) + "p"
+	f := "<" + string([]byte{c, d}) + ">"
+	vrt.Observe("symfmt", fmt.Sprintf(f, op), fmt.Sprintf(f), fmt.Sprintf("%x|%X|%d|%5s|%q|", op, op, op, op, op), fmt.Errorf(f+"%s", op, 7).Error())
+}
